@@ -10,6 +10,7 @@ Streams
   c19tls   (TLS, two-phase) rustls 0.23 / OpenSSL connector services against TLS servers with chosen certificates
            (differential evidence; the library's verdict is an oracle whose assumed shape is a reference rule here)
 """
+import re
 import ipaddress
 import itertools
 import os
@@ -316,7 +317,12 @@ def tls_extra_oracle(case):
     f = tls_fields(case)
     host = bytes.fromhex(f["host"]).decode()
     sans, issuer = IDENTS[int(f["cert"])]
-    return ",".join("hs:%s=%d" % (hx(c), int(issuer == 1 and covers(sans, c))) for c in prefixes(host))
+    # the TLS library's verdict is an oracle; rustls 0.20 (webpki 0.22) cannot verify a certificate for an IP address at all
+    def lib_ok(c):
+        if f.get("be") == "r20" and re.match(r"^(\d+\.){3}\d+$|.*:.*", c):
+            return False
+        return issuer == 1 and covers(sans, c)
+    return ",".join("hs:%s=%d" % (hx(c), int(lib_ok(c))) for c in prefixes(host))
 
 
 def host_name(host):
